@@ -42,6 +42,7 @@ CONSTANTS NT,        \* tenants 1..NT; tenant 1 is the observer
           MaxK, CapQ, MaxOps,
           LimitA,    \* max_vectors of tenant 1 (the others: NI)
           Gen,       \* generator mode: richer request catalogue, history recorded
+          Drain,     \* generator: FlushHotTier / BulkLoadHnsw allowed (they take documents out of the recent-write tier)
           SearchPostFilter, CacheScopeHasTenant, StripReserved, OverwriteReserved,
           UsageScoped, NsChecked, IdMapped, AuthChecked
 
@@ -53,7 +54,8 @@ Abs(a) == IF a < 0 THEN -a ELSE a
 Sat(a, b) == IF a >= b THEN a - b ELSE 0
 Card(S) == Cardinality(S)
 
-VARIABLES full, solo, ni, flags, hist, nsteps, done
+VARIABLES full, solo, ni, flags, hist, nsteps, done,
+          cls     \* generator: the kind of the next request is chosen first (weighted), then the request
 
 (******************************** filters **********************************)
 NoF   == [op |-> "none"]
@@ -226,6 +228,7 @@ Plain ==
        { Rq("insert", [id |-> i, v |-> v, m |-> m, ns |-> n]) : i \in Ids, v \in Vecs, m \in InsMetas, n \in 0..NNs }
   \cup { Rq("insert", [id |-> i, v |-> 1, m |-> M1, spoof |-> TRUE]) : i \in Ids }
   \cup { Rq("binsert", [items |-> b, ns |-> n]) : b \in Batches, n \in (IF Gen THEN 0..NNs ELSE {0}) }
+  \cup (IF Gen THEN { Rq("binsert", [items |-> b, spoof |-> TRUE]) : b \in Batches } ELSE {})
   \cup { Rq("bload", [items |-> b, spoof |-> sp]) : b \in Batches, sp \in (IF Gen THEN BOOLEAN ELSE {FALSE}) }
   \cup { Rq("umeta", [id |-> i, m |-> m, merge |-> mg, ns |-> n]) : i \in Ids, m \in UpdMetas, mg \in BOOLEAN, n \in 0..NNs }
   \cup { Rq("umeta", [id |-> i, m |-> M1, spoof |-> TRUE]) : i \in Ids }
@@ -254,7 +257,7 @@ Requests == { [r EXCEPT !.t = t] : r \in Plain \cup NoKey, t \in Tenants }
 (******************************* behaviour *********************************)
 GoodFlags == [resv |-> TRUE, own |-> TRUE, ns |-> TRUE, auth |-> TRUE]
 
-Init == full = EmptySrv /\ solo = EmptySrv /\ ni = TRUE /\ flags = GoodFlags /\ hist = <<>> /\ done = FALSE
+Init == full = EmptySrv /\ solo = EmptySrv /\ ni = TRUE /\ flags = GoodFlags /\ hist = <<>> /\ done = FALSE /\ cls = <<>>
 
 Judge(r, before, d) ==
   [resv |-> \A x \in Range(d.r.docs) : ~x.rk,
@@ -273,10 +276,28 @@ Step(r) ==
      ELSE solo' = solo /\ ni' = ni /\ flags' = Meet(flags, Judge(r, full, df))
   /\ hist' = IF Gen THEN Append(hist, r) ELSE <<>>
 
+\* generator weights: <<kind, copy>>; "research" repeats a search whose query the cache of `full` holds (any tenant:
+\* identical queries of different tenants are what could make a cache entry cross the tenant boundary)
+\* "leak": a search of the observer for which this model (run with the code's deviations switched on) predicts different
+\* answers in the two copies - the generator steers towards the cases the model says are observable
+Weights == [insert |-> 5, binsert |-> 1, bload |-> 1, umeta |-> 2, delete |-> 1, bdelete |-> 1, fdelete |-> 2, query |-> 1,
+            bquery |-> 1, search |-> 4, research |-> 2, leak |-> 3, flush |-> 1, usage |-> 1, nokey |-> 1]
+Classes == { x \in (DOMAIN Weights) \X (1..5) : x[2] <= Weights[x[1]] /\ (x[1] \in {"flush", "bload"} => Drain) }
+LeakReq(r) == r.t = 1 /\ r.key = "valid" /\ r.rpc = "search" /\ Do(full, r).r # Do(solo, r).r
+InClass(r, c) ==
+  IF c = "leak" THEN LeakReq(r)
+  ELSE IF r.key # "valid" THEN c = "nokey"
+  ELSE IF c = "research" THEN r.rpc = "search" /\ \E j \in DOMAIN full.qc : full.qc[j].q = r.q
+  ELSE r.rpc = c
+
 Next ==
-  \/ /\ ~done /\ nsteps < MaxOps /\ \E r \in Requests : Step(r)
-     /\ nsteps' = nsteps + 1 /\ done' = FALSE
-  \/ /\ ~done /\ nsteps = MaxOps /\ done' = TRUE /\ UNCHANGED <<full, solo, ni, flags, hist, nsteps>>
+  \/ /\ Gen /\ ~done /\ nsteps < MaxOps /\ cls = <<>>
+     /\ \E c \in Classes : (c[1] = "research" => full.qc # <<>>) /\ (c[1] = "leak" => \E r \in Requests : LeakReq(r)) /\ cls' = c
+     /\ UNCHANGED <<full, solo, ni, flags, hist, nsteps, done>>
+  \/ /\ ~done /\ nsteps < MaxOps /\ (Gen => cls # <<>>)
+     /\ \E r \in Requests : (Gen => InClass(r, cls[1])) /\ Step(r)
+     /\ nsteps' = nsteps + 1 /\ done' = FALSE /\ cls' = <<>>
+  \/ /\ ~done /\ nsteps = MaxOps /\ done' = TRUE /\ UNCHANGED <<full, solo, ni, flags, hist, nsteps, cls>>
 InitAll == Init /\ nsteps = 0
 
 (******************************* properties ********************************)
@@ -285,7 +306,7 @@ NonInterference == ni
 \* the server-owned keys can be neither seen ...
 ReservedNeverVisible == flags.resv
 \* ... nor set: every stored document carries the index of the tenant it belongs to
-ReservedNeverSettable == \A s \in {full, solo} : \A g \in Tenants, i \in Ids : s.kv[g][i].p => s.own[g][i] = g
+ReservedNeverSettable == IdMapped => \A s \in {full, solo} : \A g \in Tenants, i \in Ids : s.kv[g][i].p => s.own[g][i] = g
 \* answers contain only the caller's documents; a namespace selector only documents of that namespace
 ReturnedOwnOnly == flags.own
 NamespaceRespected == flags.ns
@@ -297,5 +318,5 @@ QuotaExact == \A s \in {full, solo} : \A t \in Tenants : s.cnt[t] = Card(LiveOf(
 QcBounded == Len(full.qc) <= CapQ
 
 Emit == (Gen /\ done) => PrintT(ToJson([steps |-> hist]))
-View == <<full, solo, ni, flags, nsteps, done, IF Gen THEN hist ELSE <<>> >>
+View == <<full, solo, ni, flags, nsteps, done, cls, IF Gen THEN hist ELSE <<>> >>
 =============================================================================
